@@ -139,6 +139,10 @@ def lifted_changes():
             info = translate.run(core.REPO)
             meta = info.get("EGGen.lean", {})
             ch = sorted(k for k in PINNED if meta.get(k) != PINNED[k])
+            # a lifter behind a generated file this property imports refused the tree: that file is stale on disk
+            deps = translate.generated_deps("FairModel.Properties.C08X")
+            ch += [f"{fn}:lifter refused" for fn in sorted(info.get("_refused") or {})
+                   if fn in deps or fn in PINNED_SHA or fn.startswith("?")]
             for fn, pinned in (("EGLoopGen.lean", PINNED_LOOP), ("LinProgGen.lean", PINNED_LP)):
                 m = info.get(fn, {})
                 ch += sorted(f"{fn}:{k}" for k in pinned if json.loads(json.dumps(m.get(k))) != pinned[k])
@@ -542,6 +546,17 @@ class CHECK(Check):
 
     # ---------------------------------------------------------------- judging
     def judge(self, case, o, mo):
+        """model-vs-oracle disagreements are HARNESS errors only while the lifted text is the pinned one and no lifter behind a
+        generated file of this property refused; otherwise they are a broken tie (correspondence)"""
+        probs = self._judge(case, o, mo)
+        if any(p.kind == "harness" for p in probs):
+            ch = lifted_changes()
+            if ch:
+                probs = [Problem("correspondence", p.msg + f"; lifted source fragment(s) changed / refused: {ch[:4]}",
+                                 "C08.generated-model-vs-spec") if p.kind == "harness" else p for p in probs]
+        return probs
+
+    def _judge(self, case, o, mo):
         if "crash" in o:
             return [Problem("correspondence", f"implementation crashed: {o}", "impl-total")]
         if "exc" in o:
